@@ -6,6 +6,7 @@ import GridVerse.Model.Visibility
 import GridVerse.Model.Reset
 import GridVerse.Model.Env
 import GridVerse.Model.Repr
+import GridVerse.Model.Rays
 namespace GV.Codec
 
 abbrev P := StateT (List String) Option
